@@ -585,6 +585,10 @@ class SctpRig:
                 self.violation("lifecycle", "event-after-close", "open event after close event", ep=ep.name,
                                chan=chan.uid if chan else None)
             mon.sample("open-event")
+            if chan is not None and getattr(chan, "close_on_open", None) == ep.name and not getattr(chan, "close_called", False):
+                # an application that closes the channel from inside its open handler
+                self.counters["close_in_open_handler"] += 1
+                self.close_channel(ep, chan)
 
         def on_close():
             mon.closes += 1
